@@ -679,6 +679,29 @@ func init() {
 		e.w.Trusted["maps.Copy: dst gets every entry of src, its other entries stay"] = true
 		return Val{S: "Tuple"}, true
 	}
+	// slices.ContainsFunc / slices.IndexFunc with a function literal that has no side effects (no stores, no calls):
+	// the result is some value, memory is unchanged
+	pureHOF := func(isIndex bool) stdHandler {
+		return func(e *Engine, fc *fnCtx, st *State, c *ssa.CallCommon, a []Val, r types.Type) (Val, bool) {
+			if len(a) < 2 || a[1].Clo == nil {
+				e.note("pure-HOF model not applicable: the predicate is not a function literal")
+				return Val{}, false
+			}
+			cfn, ok := a[1].Clo.Fn.(*ssa.Function)
+			if !ok || !sideEffectFree(cfn) {
+				e.note("pure-HOF model not applicable: the predicate literal has side effects or calls")
+				return Val{}, false
+			}
+			if isIndex {
+				v := e.freshVal("idxfunc", tInt)
+				e.assume(st, and("(<= (- 1) "+v.T+")", "(< "+v.T+" (s_len "+a[0].T+"))"))
+				return v, true
+			}
+			return Val{T: e.sc.declareConst("containsfunc", "Bool"), S: "Bool", GoT: tBool}, true
+		}
+	}
+	H["slices.ContainsFunc"] = pureHOF(false)
+	H["slices.IndexFunc"] = pureHOF(true)
 	H["maps.Copy"] = mapsCopy
 	H["golang.org/x/exp/maps.Copy"] = mapsCopy
 	H["golang.org/x/exp/maps.Values"] = mapsCollect(true)
@@ -1377,4 +1400,44 @@ func (e *Engine) pathSplitTerms(p string) (string, string) {
 
 func pathSplitFacts(p, d, f string) string {
 	return and("(= "+p+" (str.++ "+d+" "+f+"))", "(not (str.contains "+f+" \"/\"))", or("(= "+d+" \"\")", "(str.suffixof \"/\" "+d+")"))
+}
+
+// sideEffectFree: the function has no stores, map updates, sends, goroutines, defers, panics or calls (other than the
+// len/cap builtins): applying it any number of times leaves memory unchanged.
+func sideEffectFree(fn *ssa.Function) bool {
+	if fn == nil || len(fn.Blocks) == 0 {
+		return false
+	}
+	for _, b := range fn.Blocks {
+		for _, ins := range b.Instrs {
+			switch x := ins.(type) {
+			case *ssa.Store:
+				// a store into the function's own (non-escaping) local variable is not an effect
+				root := x.Addr
+				for {
+					switch r := root.(type) {
+					case *ssa.FieldAddr:
+						root = r.X
+						continue
+					case *ssa.IndexAddr:
+						root = r.X
+						continue
+					}
+					break
+				}
+				if al, ok := root.(*ssa.Alloc); ok && !al.Heap {
+					continue
+				}
+				return false
+			case *ssa.MapUpdate, *ssa.Send, *ssa.Go, *ssa.Defer, *ssa.Panic:
+				return false
+			case *ssa.Call:
+				if bi, ok := x.Call.Value.(*ssa.Builtin); ok && (bi.Name() == "len" || bi.Name() == "cap" || bi.Name() == "ssa:deferstack") {
+					continue
+				}
+				return false
+			}
+		}
+	}
+	return true
 }
